@@ -31,6 +31,23 @@ ASSUMPTIONS = [
 @st.composite
 def cases(draw, exhaustive=False):
     spec = draw(specs.model_spec(max_mets=5, max_rxns=7, min_rxns=2, max_genes=6, min_genes=2, families=("sparse", "pathway"), palette="general"))
+    # in a quarter of the cases the gene identifiers form a family in which each contains the previous one (g1, g10,
+    # g101, ...: real models have b1 / b12), where substring tests and set membership differ
+    if spec["genes"] and draw(st.integers(0, 3)) == 0:
+        fam = ["g1", "g10", "g101", "g1010", "bg1", "g"]
+        mapping = {g["id"]: fam[k % len(fam)] + ("" if k < len(fam) else f"_{k}") for k, g in enumerate(spec["genes"])}
+
+        def ren(t):
+            if t is None or isinstance(t, str):
+                return mapping.get(t, t)
+            return [t[0], *[ren(x) for x in t[1:]]]
+
+        for g in spec["genes"]:
+            g["id"] = mapping[g["id"]]
+        for r in spec["rxns"]:
+            r["gpr"] = ren(r["gpr"])
+        for grp in spec.get("groups", []):
+            grp["members"] = [[k, mapping.get(x, x) if k == "g" else x] for k, x in grp["members"]]
     genes = [g["id"] for g in spec["genes"]]
     # some reactions are closed already
     for r in spec["rxns"]:
